@@ -261,6 +261,105 @@ Proof.
   exists (nth 9 current_table base_entry). vm_compute. repeat split; try reflexivity. tauto.
 Qed.
 
+(* ---------- JsonRpcException.from_error: the walk over `_EXCEPTIONS` ---------- *)
+(* PyMini cannot run the text of from_error itself: `for exc_class in _EXCEPTIONS` iterates a module
+   global (EGlobal evaluates to an opaque VGlobal, SFor over it is Stuck), `exc_class.supports_code(..)`
+   needs method resolution through the MRO of a class held in a local, and `exc_class(..)` /
+   `JsonRpcException(..)` need a callee that is a local / object creation (__new__ + __init__); none of
+   these exist in Base/PyMini.v.  What IS tied to the source is every class-level step of the walk:
+   the three-line control skeleton (for / if / return, then the base class) is written here in Gallina,
+   and each `supports_code` test and each constructor call in it RUNS THE TRANSLATED SOURCE of the
+   function the class's reflected row names.  `nm` names the instances (any naming). *)
+(* `C(code=.., message=.., data=..)` for the class of row e: a fresh instance, then the __init__ the
+   row names, called with the keywords in the order from_error writes them *)
+Definition ast_instantiate (f d : nat) (n : string) (e : entry) (code : Z) (message : list N) (data : option val)
+  : res val :=
+  mk_call prog f d (init_qual e) (Some (new_inst n e)) []
+          [("code", VInt code); ("message", VStr message); ("data", data_val data)].
+
+Lemma instantiate_positional f d n e code message data :
+  ast_instantiate f d n e code message data =
+  run prog f d (init_qual e) (Some (new_inst n e)) [VStr message; VInt code; data_val data].
+Proof.
+  unfold ast_instantiate, run, init_qual. destruct d as [|d]; [reflexivity|].
+  destruct (e_ctor e).
+  - enter f_JsonRpcException_init. unfold run_fun, f_JsonRpcException_init, new_inst. pybind. reflexivity.
+  - enter f_JsonRpcServerError_init. unfold run_fun, f_JsonRpcServerError_init, new_inst. pybind. reflexivity.
+Qed.
+
+Fixpoint ast_from_error_walk (f d : nat) (nm : entry -> string) (base : entry) (l : list entry)
+         (code : Z) (message : list N) (data : option val) : res val :=
+  match l with
+  | [] => ast_instantiate f d (nm base) base code message data
+  | e :: r =>
+    match run prog f d (supports_qual e) (Some (cls_val e)) [VInt code] with
+    | Ok v =>
+      if truthy v
+      then ast_instantiate f d (nm e) e code message data
+      else ast_from_error_walk f d nm base r code message data
+    | Raise k => Raise k
+    | Stuck w => Stuck w
+    end
+  end.
+
+(* the Python value of a constructor result, the instance named after its own class *)
+Definition cres_val_nm (nm : entry -> string) (c : cres val) : res val :=
+  match c with COk x => cres_val (nm (x_class x)) c | _ => cres_val "" c end.
+
+Lemma construct_class nm e message code data :
+  cres_val (nm e) (Exceptions.construct e message code data) =
+  cres_val_nm nm (Exceptions.construct e message code data).
+Proof.
+  unfold Exceptions.construct, base_init.
+  destruct (e_ctor e) as [|lo hi]; destruct message; destruct code as [c|];
+    try destruct (in_range lo hi c); destruct (e_msg e); destruct (e_code e); reflexivity.
+Qed.
+
+Lemma from_error_walk_ok f d nm base l code message data :
+  In base (base_entry :: current_table) -> (forall e, In e l -> In e (base_entry :: current_table)) -> (2 <= d)%nat ->
+  ast_from_error_walk f d nm base l code message data =
+  cres_val_nm nm (from_error_loop base l code message data).
+Proof.
+  intros Hb Hl Hd. induction l as [|e r IH]; cbn [ast_from_error_walk from_error_loop].
+  - rewrite instantiate_positional.
+    change (VStr message) with (opt_str (Some message)). change (VInt code) with (opt_int (Some code)).
+    rewrite (ast_table_construct f d (nm base) base (Some message) (Some code) data Hb Hd).
+    apply construct_class.
+  - rewrite (ast_table_supports_code f d e code (Hl e (or_introl eq_refl)) Hd).
+    cbn [truthy]. destruct (Exceptions.supports_code e code).
+    + rewrite instantiate_positional.
+      change (VStr message) with (opt_str (Some message)). change (VInt code) with (opt_int (Some code)).
+      rewrite (ast_table_construct f d (nm e) e (Some message) (Some code) data (Hl e (or_introl eq_refl)) Hd).
+      apply construct_class.
+    + apply IH. intros e' He'. apply Hl. right. exact He'.
+Qed.
+
+(* from_error(error) for every code / message / data: walking the reflected `_EXCEPTIONS` with the
+   translated supports_code / __init__ gives the model's from_error - the first registered class that
+   supports the code, built from the error's code / message / data, else the generic JsonRpcException *)
+Theorem ast_from_error_equiv f d nm code message data : (2 <= d)%nat ->
+  ast_from_error_walk f d nm base_entry (exceptions_set current_table) code message data =
+  cres_val_nm nm (from_error current_table base_entry (mkErr code message data)).
+Proof.
+  intros Hd. unfold from_error. cbn [r_code r_msg r_data]. apply from_error_walk_ok.
+  - left. reflexivity.
+  - intros e He. right. unfold exceptions_set in He. apply filter_In in He. exact (proj1 He).
+  - exact Hd.
+Qed.
+
+(* non-vacuity: -32601 comes back as the class whose CODE it is, an unlisted code as the base class *)
+Example ast_from_error_example :
+  (exists e, In e current_table /\ e_code e = Some (-32601) /\ e_reg e = true /\
+     ast_from_error_walk 0 2 (fun _ => "exc") base_entry (exceptions_set current_table) (-32601) [109%N] None =
+     Ok (exc_val "exc" (mkExc e (-32601) [109%N] None))) /\
+  ast_from_error_walk 0 2 (fun _ => "exc") base_entry (exceptions_set current_table) 7 [109%N] None =
+  Ok (exc_val "exc" (mkExc base_entry 7 [109%N] None)).
+Proof.
+  split.
+  - exists (nth 4 current_table base_entry). vm_compute. repeat split; try reflexivity. tauto.
+  - vm_compute. reflexivity.
+Qed.
+
 (* all of it in one statement (one `Print Assumptions` per run) *)
 Definition ast_exceptions_equiv_statement : Prop :=
   (forall f d (c : option Z), (1 <= d)%nat ->
